@@ -56,7 +56,10 @@ def one(src):
             return name, 'REJECT demo fails on the unchanged tree (exit %d): %s' % (base.returncode, (base.stdout + base.stderr)[-300:])
         r = sh('git apply %s/patch.diff' % src, cwd=wt)
         if r.returncode:
-            return name, 'REJECT patch does not apply: ' + r.stderr[-300:]
+            # /repo may have moved on by a fix: commit since the agent's worktree was made - accept a fuzzy apply
+            r = sh('patch -p1 -s < %s/patch.diff' % src, cwd=wt)
+            if r.returncode:
+                return name, 'REJECT patch does not apply: ' + (r.stdout + r.stderr)[-300:]
         changed = sh('git diff --stat', cwd=wt).stdout
         mut = sh('/venv/bin/python %s' % demo, cwd=src, env=env, timeout=1200)
         if mut.returncode == 0:
